@@ -1312,3 +1312,27 @@ func SpecRdbBuffered(r *memoryRdb) int64 { panic("abstract spec function") }
 //@   requires nonnil: ri != nil && ri.channel != nil
 //@   modifies heap, rdrId
 //@   assert at call NewReader: the_cache_is_read_from_the_position_the_meta_sync_decided: off.Offset == old(readerOffset.Offset) && off.RunId == old(readerOffset.RunId)
+
+// ---- the always-on key blacklist of an output (C10: "the tool's own bookkeeping keys found in a
+// source are never forwarded") ----
+// The key filter decides by the key POSITIONS of a command (FilterCmdKey, under contract in package
+// filter), so a bookkeeping key is caught wherever it stands - provided its prefix is on the list.
+// On a link that is not bidirectional the reserved namespace redis-gunyu-bisync: has to be on it
+// like the other two prefixes; the later test touchesBisyncNamespace looks at the first argument
+// only (all arguments for DEL / UNLINK).
+//   nsListed  1 when some list handed to InsertPrefixKeyBlackList names the bisync namespace among its first four
+//             entries (the always-on lists are short literals; a quantified form did not discharge)
+//@ func NewRedisOutput
+//@   arith int
+//@   properties C10
+//@   replay syncer_bookkeepingKeys
+//@   ghost var nsListed mathint = 0
+//@   modifies heap, nsListed
+//@   set nsListed = ite((len(keys) > 0 && keys[0] == "redis-gunyu-bisync:") || (len(keys) > 1 && keys[1] == "redis-gunyu-bisync:") || (len(keys) > 2 && keys[2] == "redis-gunyu-bisync:") || (len(keys) > 3 && keys[3] == "redis-gunyu-bisync:"), 1, nsListed) at call InsertPrefixKeyBlackList
+//@   ensures the_reserved_bisync_namespace_is_blacklisted_on_a_plain_link: !cfg.BisyncEnabled ==> nsListed == 1
+//@ func RedisOutput.bisyncEnabled
+//@   arith int
+//@   properties C10
+//@   requires nonnil: ro != nil
+//@   modifies nothing
+//@   ensures configured: result == ro.cfg.BisyncEnabled
